@@ -7,7 +7,9 @@ import (
 	"errors"
 	"fmt"
 	"math/big"
+	"regexp"
 	"sort"
+	"strconv"
 	"strings"
 	"time"
 
@@ -51,17 +53,19 @@ type nsMon struct {
 	L, R  *nsMon
 }
 type nsPortion struct {
-	K string // c v rem
-	N *big.Int
-	D *big.Int
-	X string
+	K   string // c v rem
+	N   *big.Int
+	D   *big.Int
+	X   string
+	Raw string // when set: the literal text of a constant portion (degenerate forms: 1/0, 7 / 00, 150%, ...)
 }
 type nsVal struct {
-	K string // acc asset num str por mon var
-	S string
-	N *big.Int
-	D *big.Int
-	M *nsMon
+	K   string // acc asset num str por mon var
+	S   string
+	N   *big.Int
+	D   *big.Int
+	M   *nsMon
+	Raw string // portion literal text
 }
 type nsSource struct {
 	K    string // acc max ord
@@ -108,10 +112,11 @@ type nsDecl struct {
 	Asset    nsAsset
 }
 type nsValue struct {
-	Ty string // account asset number string monetary portion
-	S  string
-	N  *big.Int
-	D  *big.Int
+	Ty  string // account asset number string monetary portion
+	S   string
+	N   *big.Int
+	D   *big.Int
+	Raw string // portion: the raw string handed to SetVarsFromJSON / stored as metadata
 }
 type nsCase struct {
 	Decls []nsDecl
@@ -149,6 +154,9 @@ func (m *nsMon) sx() string {
 func (p nsPortion) sx() string {
 	switch p.K {
 	case "c":
+		if p.Raw != "" {
+			return L("pcs", Q(p.Raw))
+		}
 		return L("pc", p.N.String(), p.D.String())
 	case "v":
 		return L("pv", Q(p.X))
@@ -167,6 +175,9 @@ func (v nsVal) sx() string {
 	case "str":
 		return L("vstr", Q(v.S))
 	case "por":
+		if v.Raw != "" {
+			return L("vpors", Q(v.Raw))
+		}
 		return L("vpor", v.N.String(), v.D.String())
 	case "mon":
 		return L("vmon", v.M.sx())
@@ -262,6 +273,9 @@ func (v nsValue) sx() string {
 	case "monetary":
 		return L("monetary", Q(v.S), v.N.String())
 	case "portion":
+		if v.Raw != "" {
+			return L("portions", Q(v.Raw))
+		}
 		return L("portion", v.N.String(), v.D.String())
 	default:
 		return L(v.Ty, Q(v.S))
@@ -331,6 +345,8 @@ func sxPortion(x *Sx) nsPortion {
 	switch x.List[0].Atom {
 	case "pc":
 		return nsPortion{K: "c", N: sxBig(x.List[1]), D: sxBig(x.List[2])}
+	case "pcs":
+		return nsPortion{K: "c", Raw: x.List[1].Atom}
 	case "pv":
 		return nsPortion{K: "v", X: x.List[1].Atom}
 	default:
@@ -349,6 +365,8 @@ func sxVal(x *Sx) nsVal {
 		return nsVal{K: "str", S: x.List[1].Atom}
 	case "vpor":
 		return nsVal{K: "por", N: sxBig(x.List[1]), D: sxBig(x.List[2])}
+	case "vpors":
+		return nsVal{K: "por", Raw: x.List[1].Atom}
 	case "vmon":
 		return nsVal{K: "mon", M: sxMon(x.List[1])}
 	default:
@@ -410,6 +428,8 @@ func sxValue(x *Sx) nsValue {
 		return nsValue{Ty: "monetary", S: x.List[1].Atom, N: sxBig(x.List[2])}
 	case "portion":
 		return nsValue{Ty: "portion", N: sxBig(x.List[1]), D: sxBig(x.List[2])}
+	case "portions":
+		return nsValue{Ty: "portion", Raw: x.List[1].Atom}
 	default:
 		return nsValue{Ty: x.List[0].Atom, S: x.List[1].Atom}
 	}
@@ -497,6 +517,9 @@ func (m *nsMon) text() string {
 func (p nsPortion) text() string {
 	switch p.K {
 	case "c":
+		if p.Raw != "" {
+			return p.Raw
+		}
 		return p.N.String() + "/" + p.D.String()
 	case "v":
 		return "$" + p.X
@@ -515,6 +538,9 @@ func (v nsVal) text() string {
 	case "str":
 		return "\"" + v.S + "\""
 	case "por":
+		if v.Raw != "" {
+			return v.Raw
+		}
 		return v.N.String() + "/" + v.D.String()
 	case "mon":
 		return v.M.text()
@@ -625,6 +651,9 @@ func (v nsValue) str() string {
 	case "monetary":
 		return v.S + " " + v.N.String()
 	case "portion":
+		if v.Raw != "" {
+			return v.Raw
+		}
 		return v.N.String() + "/" + v.D.String()
 	default:
 		return v.S
@@ -936,6 +965,13 @@ type nsGen struct {
 
 var nsAccNames = []string{"a", "b", "c", "d:x", "e-1", "world"}
 var nsAssets = []string{"USD", "EUR/2", "COIN"}
+// degenerate / unusual portion texts (machine.ParsePortionSpecific): zero denominator, zero numerator, leading zeros,
+// blanks around '/', above 100 %, huge terms, percent forms
+var nsOddPortions = []string{"1/0", "0/0", "7 / 00", "0/5", "05/010", "1 /2", "1/ 2", "3/2", "150%", "0%", "100.0%", "100%", "12.5%", "00.50%",
+	"1/1000000000000000000000000000000", "99999999999999999999/100000000000000000000", "18446744073709551616/18446744073709551617", "2/0000"}
+
+var nsFracRe = regexp.MustCompile(`^([0-9]+)\s?/\s?([0-9]+)$`)
+
 var nsEdgeAssets = []string{"USD//2", "12A", "A/1234567", "/", "ABCDEFGHIJKLMNOPQRS", "USD/2/3", "9", "U/"}
 
 func (g *nsGen) amount() *big.Int {
@@ -1050,6 +1086,10 @@ func (g *nsGen) portions(n int) []nsPortion {
 		}
 		left.Sub(left, p)
 		ps[i] = nsPortion{K: "c", N: new(big.Int).Set(p.Num()), D: new(big.Int).Set(p.Denom())}
+		if g.r.Chance(7) && !g.shared {
+			ps[i] = nsPortion{K: "c", Raw: Pick(g.r, nsOddPortions)}
+			continue
+		}
 		if g.r.Chance(30) { // non-normalised text
 			ps[i].N.Mul(ps[i].N, big.NewInt(2))
 			ps[i].D.Mul(ps[i].D, big.NewInt(2))
@@ -1134,6 +1174,9 @@ func (g *nsGen) val() nsVal {
 	case 3:
 		return nsVal{K: "str", S: Pick(g.r, []string{"hello", "x y", "", "k1"})}
 	case 4:
+		if g.r.Chance(25) && !g.shared {
+			return nsVal{K: "por", Raw: Pick(g.r, nsOddPortions)}
+		}
 		return nsVal{K: "por", N: big.NewInt(int64(g.r.Intn(5))), D: big.NewInt(4 + int64(g.r.Intn(4)))}
 	case 5:
 		return nsVal{K: "mon", M: g.mon(Pick(g.r, nsAssets))}
@@ -1169,6 +1212,9 @@ func genNsCase(r *Rng, profile string) *nsCase {
 	c.Meta[[2]string{"a", "acc"}] = nsValue{Ty: "account", S: Pick(r, []string{"b", "m:1", "world", "c"})}
 	c.Meta[[2]string{"b", "acc"}] = nsValue{Ty: "account", S: Pick(r, []string{"a", "m:2"})}
 	c.Meta[[2]string{"a", "fee"}] = nsValue{Ty: "portion", N: big.NewInt(int64(r.Intn(4))), D: big.NewInt(8)}
+	if r.Chance(12) && profile != "shared" {
+		c.Meta[[2]string{"a", "fee"}] = nsValue{Ty: "portion", Raw: Pick(r, nsOddPortions)}
+	}
 	c.Meta[[2]string{"a", "limit"}] = nsValue{Ty: "monetary", S: Pick(r, nsAssets), N: big.NewInt(int64(r.Intn(100)))}
 	if r.Chance(5) && profile != "shared" {
 		c.Meta[[2]string{"a", "acc"}] = nsValue{Ty: "account", S: "not an address"}
@@ -1276,6 +1322,10 @@ func genNsCase(r *Rng, profile string) *nsCase {
 		case k < 11:
 			if _, ok := c.Given["p"]; ok {
 				c.Given["p"] = nsValue{Ty: "portion", N: big.NewInt(7), D: big.NewInt(5)}
+			}
+		case k < 17:
+			if _, ok := c.Given["p"]; ok {
+				c.Given["p"] = nsValue{Ty: "portion", Raw: Pick(r, append([]string{".5%", "1//2", "1/", "/2", "%", "1 / 2 "}, nsOddPortions...))}
 			}
 		case k < 13:
 			if _, ok := c.Given["m"]; ok {
@@ -1844,7 +1894,28 @@ func cmdNsLex(args []string) int {
 	r := NewRng(f.Seed)
 	alpha := "AZaz09_-:/ .U1"
 	one := func(s string) {
-		out.Case(L("lex", Q(s)), L(fmt.Sprint(accounts.ValidateAddress(s)), fmt.Sprint(assets.IsValid(s)), fmt.Sprint(nsCompilesAsAssetLiteral(s))))
+		por := "err"
+		if pm, _ := withTimeout(5*time.Second, func() {
+			if p, err := machine.ParsePortionSpecific(s); err == nil && p != nil && p.Specific != nil {
+				por = "ok " + p.Specific.Num().String() + "/" + p.Specific.Denom().String()
+			}
+		}); pm != "" {
+			por = "panic"
+			out.Violation("C27", L("lex", Q(s)), "machine.ParsePortionSpecific panicked: "+pm+" [portion-parse-panic]")
+		}
+		if m := nsFracRe.FindStringSubmatch(s); m != nil && por != "panic" { // independent decimal reading of n/d
+			n, _ := new(big.Int).SetString(m[1], 10)
+			d, _ := new(big.Int).SetString(m[2], 10)
+			want := "err"
+			if d.Sign() != 0 && n.Cmp(d) <= 0 {
+				q := new(big.Rat).SetFrac(n, d)
+				want = "ok " + q.Num().String() + "/" + q.Denom().String()
+			}
+			if want != por {
+				out.Violation("C27", L("lex", Q(s)), "portion "+strconv.Quote(s)+" is read as "+por+", its decimal reading is "+want+" (leading 0 = octal in big.Rat.SetString) [portion-octal]")
+			}
+		}
+		out.Case(L("lex", Q(s)), L(fmt.Sprint(accounts.ValidateAddress(s)), fmt.Sprint(assets.IsValid(s)), fmt.Sprint(nsCompilesAsAssetLiteral(s)), Q(por)))
 		out.Stats["cases"]++
 		if assets.IsValid(s) || accounts.ValidateAddress(s) {
 			out.Stats["distinct_nontrivial"]++
@@ -1859,8 +1930,16 @@ func cmdNsLex(args []string) int {
 		return 0
 	}
 	fixed := append(append([]string{"", "world", "a:b", "a::b", ":a", "a:", "USD", "USD/2", "USD_X", "USD_X/2", "USD_/2", "USD/1234567", "USD/123456", "AAAAAAAAAAAAAAAAA", "AAAAAAAAAAAAAAAAAA", "A_AAAAAAAAAAAAAAAAA", "A_AAAAAAAAAAAAAAAA", "A_B1", "A1_B/0", "usd", "U\n"}, nsEdgeAssets...), nsAssets...)
-	for _, s := range fixed {
+	for _, s := range append(append([]string{}, fixed...), append([]string{".5%", "1//2", "1/", "/2", "%", "1 / 2 ", "1\t/2", "1/\n2", "1  /2"}, nsOddPortions...)...) {
 		one(s)
+	}
+	palpha := "0123456789/ %.0012"
+	for i := 0; i < f.N/4; i++ {
+		b := make([]byte, 1+r.Intn(7))
+		for j := range b {
+			b[j] = palpha[r.Intn(len(palpha))]
+		}
+		one(string(b))
 	}
 	for i := 0; i < f.N; i++ {
 		n := r.Intn(8)
@@ -1902,7 +1981,7 @@ func cmdNsFront(args []string) int {
 	defer out.Close()
 	r := NewRng(f.Seed)
 	tokens := []string{"send", "source", "destination", "=", "(", ")", "{", "}", "[", "]", "\n", " ", "max", "from", "to", "kept", "remaining", "allowing overdraft up to",
-		"allowing unbounded overdraft", "@a", "@world", "$x", "$acc", "USD", "USD/2", "*", "10", "1/2", "50%", "vars", "account", "monetary", "portion", "number", "string", "asset",
+		"allowing unbounded overdraft", "@a", "@world", "$x", "$acc", "USD", "USD/2", "*", "10", "1/2", "50%", "1/0", "0/0", "7 / 00", "150%", ".5%", "100.0%", "0%", "00/00", "1/00000", "vars", "account", "monetary", "portion", "number", "string", "asset",
 		"meta", "balance", "set_tx_meta", "set_account_meta", "save", "fail", "print", "+", "-", ",", "\"k\"", "//", "/*", "*/", "\x00", "\xff", "é"}
 	try := func(kind, script string, c *nsCase) {
 		out.Stats["cases"]++
